@@ -192,9 +192,9 @@ def r01_2_file_ownership(chk, m):
     # label first: in write(), the label call dominates the record call; records refuse without the label
     writef = m.write
     wsul = m.writer_cls.lookup("write_storage_unit_label")
-    wlr = m.record_loop[0]
+    wlr = m.entry
     done = False
-    for f in [writef] + list(writef.nested.values()):
+    for f in dict.fromkeys([writef] + list(writef.nested.values()) + [m.writer_ctor_call[0]]):
         g = CFG(f.node)
         sc = Scope(ix, f)
         a = g.nodes_where(lambda s: _calls(ix, sc, s, wsul))
@@ -556,7 +556,9 @@ def r01_8_tiling(chk, m):
     buf_cls = ix.get_class("BufferedOutput")
     add = buf_cls.lookup("add_bytes")
     callers = chk.cg.callers_of(add)
-    chk.require(all(s.caller is f for s in callers) and len(callers) >= 1, "R01.8", "single-producer-for-the-buffer",
+    producers = {m.entry} | {g for g in chk.cg.reachable([m.entry]) if g.cls is m.writer_cls}
+    chk.require(all(s.caller in producers for s in callers) and len(callers) >= 1, "R01.8",
+                "single-producer-for-the-buffer",
                 f"add_bytes is called from {sorted({s.caller.short for s in callers})}", add.where)
     # the final drain follows the loop on every normal path
     complete = [o for o in m.seg_outs if o.kind == "val"]
